@@ -3,7 +3,7 @@ META = dict(
     level="other",
     claim="Mechanisms behind 'a located diagnostic, never a crash': error_at/error_tok/verror_at print the file name and the 1-based physical line of the offending location, excerpt exactly that source line, never scan outside the buffer, and end with a failure exit (every 8-byte buffer over {a,newline}, every location); the size-directed code-generator helpers cannot reach unreachable() for the sizes their callers use. The crash-free behaviour of the functions under contract elsewhere is checked by CBMC's generated pointer/bounds/division checks in those properties' harnesses (C01-C20), and a crashed or signalled front end makes the driver fail (C14.1).",
     note="Bounded buffers. This does NOT decide the property's universal claim over all byte strings (termination and acceptance of every valid program are outside function-by-function contracts); it decides the located-diagnostic mechanism and lists, in DESIGN.md I.5, the crash defects that the other harnesses exposed and that were repaired (SIGFPE in constant division, SIGSEGV on unnamed bit-fields, internal error on long double static initialisers, assembler rejection of wide bit-field masks).",
-    functions=["tokenize.c:error_at", "tokenize.c:error_tok", "tokenize.c:verror_at", "codegen.c:reg_ax", "codegen.c:reg_dx", "codegen.c:store_fp", "codegen.c:store_gp"],
+    functions=["tokenize.c:error_at", "tokenize.c:error_tok", "tokenize.c:verror_at", "codegen.c:reg_ax", "codegen.c:reg_dx", "codegen.c:store_fp", "codegen.c:store_gp", "parse.c:array_designator", "hashmap.c:get_or_insert_entry", "hashmap.c:hashmap_delete2", "main.c:run_subprocess"],
     trusted_base=["CBMC 6.11"],
     assumptions=["stdio is a ghost writer", "display_width is replaced by the byte count (its own loop is not under contract)"],
     explanation="bounded harnesses on the diagnostic functions; safety checks of other properties' harnesses are counted there",
@@ -12,5 +12,17 @@ def jobs(tier):
     P = dict(mode="plain", cut=[], units=["unicode.c", "type.c"], timeout=300, replay=None, unwind=14)
     return [Job(name="error_at", src="diag.c", group="C13.4 located diagnostics", defs={"FN": "0"}, bounded="8-byte buffers", sample="error_at at every location of every 8-byte buffer", **P),
             Job(name="error_tok", src="diag.c", group="C13.4 located diagnostics", defs={"FN": "1"}, bounded="8-byte buffers", sample="error_tok for a token at every location", **P),
+            Job(name="table-put", src="../C17/hm.c", group="C13.2 table maintenance never aborts", defs={"CAP": "4", "OPN": "1"}, mode="legacy", replace=["fnv_hash"], cut=["error", "error_tok", "error_at"], cut_defined=["rehash"],
+                unwind=2, unwindset=[f"{l}:18" for l in ("harness.0", "any_state.0", "any_state.1", "wf.0", "wf.1", "wf.2", "slot_of.0", "get_or_insert_entry.0", "memcmp.0", "get_entry.0")], timeout=300, replay=None,
+                bounded="capacity 4", sample="put keeps used == occupied slots < capacity, so the probe loops always meet an empty slot"),
+            Job(name="table-delete", src="../C17/hm.c", group="C13.2 table maintenance never aborts", defs={"CAP": "4", "OPN": "2"}, mode="legacy", replace=["fnv_hash"], cut=["error", "error_tok", "error_at"],
+                unwind=2, unwindset=[f"{l}:18" for l in ("harness.0", "any_state.0", "any_state.1", "wf.0", "wf.1", "wf.2", "slot_of.0", "get_or_insert_entry.0", "memcmp.0", "get_entry.0")], timeout=300, replay=None,
+                bounded="capacity 4", sample="delete keeps the occupancy invariant"),
+            Job(name="subprocess-status", src="../C14/driver.c", group="C13.5 a crashed front end is a failure", defs={"FN": "0"}, mode="plain", cut=["error", "error_tok", "error_at", "verror_at", "warn_tok"], units=["strings.c"], timeout=300, replay=None, unwind=24,
+                sample="run_subprocess: a child killed by a signal or exiting non-zero ends the driver with a failure"),
+            Job(name="arrdesig-one", src="../C05/arrdesig.c", group="C13.1 validity checks precede use", defs={"RANGE": "0"}, mode="plain", cut=["error", "error_tok", "error_at", "verror_at", "warn_tok"], units=["type.c"],
+                redirect={"const_expr": "stub_const_expr"}, cbmc_flags=["--paths lifo"], timeout=300, replay=None, unwind=8, bounded="token shape [a]", sample="array designator [a] with any 64-bit a"),
+            Job(name="arrdesig-range", src="../C05/arrdesig.c", group="C13.1 validity checks precede use", defs={"RANGE": "1"}, mode="plain", cut=["error", "error_tok", "error_at", "verror_at", "warn_tok"], units=["type.c"],
+                redirect={"const_expr": "stub_const_expr"}, cbmc_flags=["--paths lifo"], timeout=300, replay=None, unwind=8, bounded="token shape [a ... b]", sample="array designator range [a ... b] with any 64-bit a, b"),
             Job(name="unreachable-sizes", src="unreach.c", group="C13.2 unreachable()", mode="plain", cut=["error_tok", "error_at"], units=["type.c"], timeout=300, replay=None, unwind=10, unwindset=["strcmp.0:40"],
                 bounded="sizes 1,2,4,8", sample="reg_ax/reg_dx/store_fp/store_gp over the power-of-two sizes")]
